@@ -94,6 +94,7 @@ func vh_leader_commit() {
 	order := uint64(0)
 	for len(r.fsmMutateCh) > 0 {
 		b := (<-r.fsmMutateCh).([]*commitTuple)
+		vAssert(len(b) >= 1 && len(b) <= r.config().MaxAppendEntries, "C02.commit.batch-size-bounded")
 		for _, ct := range b {
 			vAssert(ct.log.Index > order, "C02.commit.feed-increasing")
 			vAssert(ct.log.Index > pre.applied && ct.log.Index <= post.commit, "C02.commit.feed-only-committed-new")
